@@ -1,5 +1,6 @@
 mod common;
 mod stream;
+mod inchash;
 #[cfg(feature = "nightly")]
 mod prot;
 
@@ -15,6 +16,9 @@ fn main() {
     match args[0].as_str() {
         "stream-replay" => stream::cmd_replay(rest),
         "stream-trace" => stream::cmd_trace(rest),
+        "inc-splits" => inchash::cmd_splits(rest),
+        "inc-replay" => inchash::cmd_replay(rest),
+        "inc-trace" => inchash::cmd_trace(rest),
         #[cfg(feature = "nightly")]
         "prot-replay" => prot::cmd_replay(rest),
         other => {
